@@ -630,7 +630,7 @@ def run_script(script, comp):
             waiting = [q for q in queued if not q['served']]
             if op[1] >= len(waiting) or waiting[op[1]]['evt'] is None:
                 continue
-            waiting[op[1]]['evt'].Set(True)       # the timeout sink's timer fired: the caller has its TimeoutError
+            rt.fire_deadline(waiting[op[1]]['evt'])       # the timeout sink's timer fired: the caller has its TimeoutError
             rt.drain()
             optxt = 'expire %d' % op[1]
             tags.add('gate-expired')
